@@ -254,13 +254,15 @@ def classify_message(msg):
         return "invariant-front"
     if "loop invariant" in m or "invariant not satisfied" in m:
         return "invariant-end"
-    if "assertion failed" in m:
+    if "assertion failed" in m or "requires not satisfied" in m:      # failing `requires` of `assert .. by(..) requires ..`
         return "assert"
+    if "type invariant" in m:
+        return "other-vc"
     if "arithmetic underflow/overflow" in m or "overflow" in m and "possible" in m:
         return "overflow"
     if "possible division by zero" in m:
         return "divzero"
-    if "index out of bounds" in m or "out of bounds" in m:
+    if "index out of bounds" in m or "out of bounds" in m or "index in bounds" in m:      # "precondition not met: index in bounds for this access"
         return "bounds"
     if "decreases not satisfied" in m or "could not prove termination" in m or "decreases" in m and "not satisfied" in m:
         return "decreases"
